@@ -230,6 +230,42 @@ theorem parseAddrBody_var (any : Option Anycast) (wc : Int) (b : List Bool)
   unfold parseAddrBody
   simp only [hcond, if_false, fromFift_toFift, h32, Outcome.bind]
 
+/-- hex.DecodeString accepts upper-case digits: an even number of them decodes -/
+theorem decodeChars_upper : ∀ (ns : List Nat), (∀ n ∈ ns, n < 16) → ns.length % 2 = 0 →
+    ∃ bs, Hex.decodeChars (ns.map Hex.nibbleCharUpper) = some bs
+  | [], _, _ => ⟨[], rfl⟩
+  | [_], _, h => by simp at h
+  | a :: b :: rest, hlt, he => by
+    obtain ⟨r, hr⟩ := decodeChars_upper rest (fun n hn => hlt n (by simp [hn]))
+      (by simp only [List.length_cons] at he; omega)
+    refine ⟨UInt8.ofNat (a * 16 + b) :: r, ?_⟩
+    simp only [List.map_cons]
+    rw [Hex.decodeChars, charNibble_nibbleCharUpper a (hlt a (by simp)),
+      charNibble_nibbleCharUpper b (hlt b (by simp)), hr]
+
+/-- EVERY look-alike is ambiguous: a variable address of exactly 256 bits in a workchain that fits int8 is read back as
+a standard address (the complement of the last clause of `AddrDomain`) -/
+theorem parseAddrBody_lookalike (any : Option Anycast) (wc : Int) (b : List Bool) (hlo : -128 ≤ wc) (hhi : wc ≤ 127)
+    (hb : b.length = 256) : ∃ addr, parseAddrBody any (printInt wc) (toFift b) = .ok (.std any wc addr) := by
+  have h32 : parseInt (printInt wc) 10 32 = .ok wc :=
+    parseInt_printInt_in_range 32 (by omega) (by omega) wc (by simp; omega) (by simp; omega)
+  have h8 : parseInt (printInt wc) 10 8 = .ok wc :=
+    parseInt_printInt_in_range 8 (by omega) (by omega) wc (by simp; omega) (by simp; omega)
+  have htxt := toFift_aligned b (by omega)
+  have hl : (toFift b).length = 64 := by rw [htxt]; simp [nibblesOf_length, hb]
+  have hs : hasSuffixChar '_' (toFift b) = false := by
+    rw [htxt]
+    apply hasSuffixChar_false_of_all
+    intro x hx
+    simp only [List.mem_map] at hx
+    obtain ⟨n, hn, rfl⟩ := hx
+    exact upperHex_ne _ '_' (nibbleCharUpper_upperHex n (nibblesOf_lt b n hn)) (by decide)
+  obtain ⟨dst, hdst⟩ := decodeChars_upper (nibblesOf b) (nibblesOf_lt b) (by rw [nibblesOf_length, hb])
+  rw [← htxt] at hdst
+  refine ⟨dst, ?_⟩
+  unfold parseAddrBody
+  simp [isInt8Text, h32, h8, hl, hs, hlo, hhi, hdst, Outcome.bind]
+
 /-- the parse of `wc:body[:Anycast(d,p)]`, reduced to the parse of its parts -/
 theorem parseMsgAddr_parts (wc : Int) (body : Str) (hb : ∀ c ∈ body, c ≠ ':') (hbq : ∀ c ∈ body, c ≠ '"')
     (any : Option Anycast) (hany : ∀ a, any = some a → a.depth < 2 ^ 32 ∧ a.pfx < 2 ^ 32) :
